@@ -12,7 +12,9 @@ RULE = ("seeded streams: projection (single / stacked / paired, dyadic grid poin
         "length incl. zero and tiny); Line constructor / from_points / reference_points; 3-D and 2-D line pairs through "
         "integer lattice points of [-3,3]^3 / [-4,4]^2 biased towards every incidence pattern (shared defining points, "
         "a defining point on the other line, parallel, coincident, skew, coplanar crossing); float (dyadic) lines of "
-        "magnitude 1e-3..1e3 that meet by construction; non-trivial = the call returned; distinct by hash of inputs")
+        "magnitude 1e-3..1e3 that meet by construction; lattice lines inside axis-aligned planes (signed-zero cross "
+        "products), int64 inputs, generic (skew) float lines with coordinates ~1e-3, direction vectors of length "
+        "2^-45..2^20 for the projection forms, extreme scales in the quick tier; non-trivial = the call returned; distinct by hash of inputs")
 TRUSTED = ["Coq 8.16.1 kernel, vm_compute for the correspondence evaluation",
            "axioms (Print Assumptions): ClassicalDedekindReals.sig_forall_dec, sig_not_dec, "
            "FunctionalExtensionality.functional_extensionality_dep, Classical_Prop.classic (all Coq stdlib Reals)",
